@@ -83,8 +83,9 @@ def step (_ : Unit) (toks : List String) : Unit × String :=
   | ["init", seeds, nSaved, fresh, n] =>
     match natList? seeds, nat? nSaved, bool? fresh, nat? n with
     | some seeds, some nSaved, some fresh, some n =>
-      let tr := seedTrace (fun i => seeds.getD i 0) fresh nSaved n
-      let ns := (initRun (fun i => seeds.getD i 0) id fresh n { nSaved := nSaved, files := fun _ => none }).nSaved
+      let idx := LdarModel.Generated.EmisSeed.seedIdx
+      let tr := seedTrace idx (fun i => seeds.getD i 0) fresh nSaved n
+      let ns := (initRun idx (fun i => seeds.getD i 0) id fresh n { nSaved := nSaved, files := fun _ => none }).nSaved
       ((), showList (fun (p : Nat × Nat) => s!"[{p.1},{p.2}]") tr ++ s!" {ns}")
     | _, _, _, _ => ((), "bad-op")
   | ["seedrange"] =>
